@@ -69,6 +69,42 @@ def loadPartial (fs : Files) (name : Name) : Except Err Loaded :=
     | .error e => .error (.unmarshal e)
     | .ok (d, size) => .ok ⟨d.kv, d.dp, size⟩
 
+/-! ### transient write failures: `saveStore` = `derr.RetryContext(ctx, 10, WriteObject(name, bytes.NewReader(content)))`
+Every attempt gets a fresh reader over the whole content.  A failed attempt leaves nothing, or (on a store without
+atomic writes) some garbage, under the object's name. -/
+
+inductive WriteAttempt
+  | ok
+  | fail (leaves : Option Bytes)
+deriving Repr
+
+/-- the retry loop with `budget` attempts left (`retries + 1` at the start): `none` = every attempt failed, the
+error is returned to the caller of `Write` -/
+def writeRetry (fs : Files) (name : Name) (content : Bytes) : Nat → List WriteAttempt → Option Files
+  | 0, _ => none
+  | _ + 1, [] => some (fs.write name content)
+  | _ + 1, .ok :: _ => some (fs.write name content)
+  | k + 1, .fail g :: rest =>
+    writeRetry (match g with | none => fs | some x => fs.write name x) name content k rest
+
+def saveRetries : Nat := 10
+
+def saveFullR (fs : Files) (moduleInitialBlock stop : Nat) (kv : KV) (att : List WriteAttempt) :
+    Except Err (Name × Option Files) :=
+  match marshalVT kv [] with
+  | .ok content =>
+    let name := fullName moduleInitialBlock stop
+    .ok (name, writeRetry fs name content (saveRetries + 1) att)
+  | _ => .error .marshal
+
+def savePartialR (fs : Files) (initialBlock stop : Nat) (kv : KV) (dp : List Bytes) (att : List WriteAttempt) :
+    Except Err (Name × Option Files) :=
+  match marshalVT kv dp with
+  | .ok content =>
+    let name := partialName initialBlock stop
+    .ok (name, writeRetry fs name content (saveRetries + 1) att)
+  | _ => .error .marshal
+
 /-- `ExistsFullKV(upTo)` / `ExistsPartialKV(from, to)` -/
 def existsFullKV (fs : Files) (moduleInitialBlock upTo : Nat) : Bool := fs.exists (fullName moduleInitialBlock upTo)
 def existsPartialKV (fs : Files) (from_ to : Nat) : Bool := fs.exists (partialName from_ to)
